@@ -17,7 +17,7 @@ LEVEL = "model_checking"
 RULE = ("full product kind (string, date, date-time, uuid, integer, number, boolean, enum, int enum, literal enums, const, union, any, "
         "reference to enum) x JSON default value (well- and ill-typed, 20 values) x route (direct, $ref wrapper with sibling default, "
         "overridden in an allOf member, inherited from an allOf parent) x position (model property, query, header, cookie); "
-        "non-trivial = the case reached the three-valued reference table; kinds include enums admitting null (3 notations); values include integers beyond 2^53 and containers holding booleans / null; valid defaults also on REQUIRED properties declared before / after a required property without default; routes include the 3.0 nullable-reference wrapper with a sibling default, an inherited default re-declared with a description only, a second inline enum resolving to an existing class; parameter defaults are compared through all four call variants with the argument omitted")
+        "non-trivial = the case reached the three-valued reference table; kinds include enums admitting null (3 notations); values include integers beyond 2^53 and containers holding booleans / null; valid defaults also on REQUIRED properties declared before / after a required property without default; routes include the 3.0 nullable-reference wrapper with a sibling default, an inherited default re-declared with a description only, a second inline enum resolving to an existing class; parameter defaults are compared through all four call variants with the argument omitted; path parameters that declare a default, alone and followed by a path parameter without one")
 FLOOR = 0.5
 ASSUMPTIONS = ["RM-default: VALID(expected typed value) / INVALID(diagnostic, not emitted) / LENIENT(either, never a wrongly typed emission)"]
 
@@ -218,6 +218,12 @@ def _doc(kind, value, route, pos, lit, req="opt"):
         if route not in ("direct", "ref-wrapper", "nullable30-wrapper"):
             return None
         comps["Out"] = {"type": "object", "properties": {"ok": {"type": "boolean"}}}
+        if pos in ("path", "path-first"):
+            # a path parameter that declares a default, alone or followed by a path parameter without one
+            params = [{"name": "p", "in": "path", "required": True, "schema": sch}] + ([{"name": "r", "in": "path", "required": True, "schema": {"type": "integer"}}] if pos == "path-first" else [])
+            paths["/x/{p}" + ("/{r}" if pos == "path-first" else "")] = {"get": {"operationId": "theOp", "parameters": params,
+                                                                               "responses": {"200": {"description": "d", "content": {"application/json": {"schema": {"$ref": "#/components/schemas/Out"}}}}}}}
+            return gen.base_doc(comps or None, paths=paths, version="3.0.3" if route == "nullable30-wrapper" else "3.1.0")
         paths["/x"] = {"get": {"operationId": "theOp", "parameters": [{"name": "p", "in": pos, "required": False, "schema": sch}],
                                "responses": {"200": {"description": "d", "content": {"application/json": {"schema": {"$ref": "#/components/schemas/Out"}}}}}}}
     return gen.base_doc(comps or None, paths=paths, version="3.0.3" if route == "nullable30-wrapper" else "3.1.0")
@@ -233,7 +239,9 @@ def cases(tier):
         t = table(kind)
         for label in t:
             for route in ("direct", "ref-wrapper", "allof-override", "allof-inherit", "nullable30-wrapper", "allof-redescribed", "allof-redescribed-camel", "second-use-of-enum-class"):
-                for pos in ("model", "query", "header", "cookie"):
+                for pos in ("model", "query", "header", "cookie", "path", "path-first"):
+                    if pos.startswith("path") and (route != "direct" or kind not in ("str", "int", "num", "bool", "date", "uuid", "enum_str", "enum_int") or t[label][0] != V):
+                        continue
                     if pos != "model" and (kind not in PARAM_KINDS or route not in ("direct", "ref-wrapper", "nullable30-wrapper")):
                         continue
                     if route in ("ref-wrapper", "nullable30-wrapper") and kind in ("union", "any", "const", "enum_str_oneofnull", "enum_str_null", "enum_int_null"):
@@ -323,7 +331,7 @@ def run_case(p):
                         got_js = f"<raises {type(exc).__name__}: {exc}>"
             elif res.endpoints:
                 ep = res.endpoints[0]
-                lst = ep[f"{pos}_params"]
+                lst = [x for x in ep[f"{pos.split('-')[0]}_params"] if x["name"] == "p"] if pos.startswith("path") else ep[f"{pos}_params"]
                 if lst:
                     artefact = True
                     mod = wire.endpoint_module(sb, ep)
@@ -331,18 +339,23 @@ def run_case(p):
                     got_py = par.default
                     cap = wire.Capture(lambda request: __import__("httpx").Response(200, json={"ok": True}))
                     sent = {}
+                    base_kw = {"r": 1} if pos == "path-first" else {}
                     for variant in wire.VARIANTS:      # the plain variants forward their own arguments to the detailed ones
-                        rv = wire.call(mod, variant, lambda: wire.make_client(sb, cap), cap, {})
+                        rv = wire.call(mod, variant, lambda: wire.make_client(sb, cap), cap, dict(base_kw))
                         if rv is not None and rv["ok"] and rv["requests"]:
                             qv = rv["requests"][0]
                             sent[variant] = ([v for k, v in qv["query"] if k == "p"] if pos == "query" else [v for k, v in qv["headers"] if k == "p"] if pos == "header" else
-                                             ([qv["cookies"]["p"]] if "p" in qv["cookies"] else []))
+                                             [qv["path"]] if pos.startswith("path") else ([qv["cookies"]["p"]] if "p" in qv["cookies"] else []))
                     if len({json.dumps(v) for v in sent.values()}) > 1:
                         viol.append({"oracle": "variants-differ", "site": pos, "key": key, "detail": f"omitting the argument: the call variants transmit {sent!r}"})
-                    r = wire.call(mod, "sync_detailed", lambda: wire.make_client(sb, cap), cap, {})
+                    r = wire.call(mod, "sync_detailed", lambda: wire.make_client(sb, cap), cap, dict(base_kw))
                     if r["ok"] and r["requests"]:
                         q = r["requests"][0]
-                        if pos == "query":
+                        if pos.startswith("path"):
+                            import urllib.parse
+                            seg = q["path"].split("/")
+                            vals = [urllib.parse.unquote(seg[2])] if len(seg) > 2 else []
+                        elif pos == "query":
                             vals = [v for k, v in q["query"] if k == "p"]
                         elif pos == "header":
                             vals = [v for k, v in q["headers"] if k == "p"]
